@@ -23,6 +23,7 @@ func main() {
 	verbose := flag.Bool("v", false, "verbose")
 	replay := flag.String("replay", "", "replay file")
 	selftest := flag.Bool("selftest", false, "run the must-fail corpus")
+	tagaudit := flag.Bool("tagaudit", false, "list contracted callees reachable from each property's functions that lack its tag")
 	seed := flag.Int64("seed", 0, "seed")
 	writeBaseline := flag.Bool("write-baseline", false, "record discharged obligations in baseline/obligations.json (run on the unchanged tree only)")
 	flag.BoolVar(&calls, "calls", false, "with -dump: list call sites and the names `on call` clauses match")
@@ -44,6 +45,9 @@ func main() {
 	}
 	if *replay != "" {
 		os.Exit(runReplay(*repo, *verif, *prop, *replay))
+	}
+	if *tagaudit {
+		os.Exit(TagAudit(*repo, *verif))
 	}
 	if *selftest {
 		os.Exit(runSelftest(*repo, *verif, *prop, *verbose))
